@@ -4,12 +4,12 @@ SPEC = {'level': 'exploration',
                  'CTxMemPool filled through the test helper TryAddToMempool and the real IsBlockMutated; proof of work and block validity are out of scope',
                  'the reference is the transaction list the harness built for the announced header (own merkle / BIP141 commitment code); SHA256 collisions ignored',
                  'lists that do not start with a coinbase (only reachable with an attacker-committed header) are checked for txid-list equality only'],
- 'stages': [gen('vh_c38', 'c38_cmpct', 56000, 800000, min_cases_quick=15000,
+ 'stages': [gen('vh_c38', 'c38_cmpct', 40000, 600000, min_cases_quick=12000,
                 floors={'fill-ok': 0.25, 'fill-failed-mutation-check': 0.08, 'init-invalid': 0.01, 'init-failed': 0.01, 'twin-in-play': 0.05,
                         'decoy-in-play': 0.05, 'mut:cve-2012-2459': 0.004, 'mut:index-fault': 0.02, 'ok-despite-attacker': 0.02, 'large-block': 0.03},
                 rule='attacker-encoded compact block announcements vs the genuine block; non-trivial = FillBlock reached with an attacker-chosen tx in play, '
                      'or OK reconstruction from >= 2 sources'),
-            gen('vh_c38', 'up_partially_downloaded_block', 20000, 300000, min_cases_quick=5000,
+            gen('vh_c38', 'up_partially_downloaded_block', 8000, 150000, min_cases_quick=2500,
                 rule='upstream fuzz target partially_downloaded_block (mocked mutation check; supplementary)')]}
 
 META = {'level_text': 'Generated compact-block announcements of a harness-built block (1-200 txs, segwit and not) encoded by an attacker (substituted/twin/swapped/'
